@@ -215,6 +215,28 @@ def run(ctx, col: Collector):
                 pass
             closure_text = ' '.join(x.template for h in fins for x in h[5]) + ' ' + ' '.join(texts)
 
+            def record_fields(pth: str) -> str:
+                """`Record(a, b).first[0].table` -> `a[0].table` for a NamedTuple / dataclass of the package built on the spot"""
+                try:
+                    e = ast.parse(pth, mode='eval').body
+                except SyntaxError:
+                    return pth
+
+                class _RF(ast.NodeTransformer):
+                    def visit_Attribute(self_, n):
+                        self_.generic_visit(n)
+                        if isinstance(n.value, ast.Call) and isinstance(n.value.func, ast.Name):
+                            ci = idx.class_of(fi.module, n.value.func)
+                            if ci is not None:
+                                fields = [st_.target.id for st_ in ci.node.body if isinstance(st_, ast.AnnAssign) and isinstance(st_.target, ast.Name)]
+                                vals = dict(zip(fields, n.value.args))
+                                vals.update({k.arg: k.value for k in n.value.keywords if k.arg})
+                                if n.attr in vals:
+                                    return vals[n.attr]
+                        return n
+                return norm(_RF().visit(e))
+            fins = [(o, f, w, g, record_fields(pth), ch) for o, f, w, g, pth, ch in fins]
+
             def after(lit: str):
                 return [h for h in fins if any(x.left.rstrip(' (').endswith(lit) or x.left.rstrip().endswith(lit) for x in h[5])]
 
